@@ -25,7 +25,7 @@ ASSUMPTIONS = [
     "nRdy in host ACK/NAK frames is not constrained; RSTACK/ERROR to_bytes() is out of scope (the host never writes them)",
     "a DATA frame with an empty data field and ACK/NAK frames with a data field are don't-cares",
 ]
-PROBES = ["tx_data", "tx_ack", "tx_nak", "tx_rst", "tx_len_0", "tx_len_200", "tx_all_reserved", "rx_control_bytes", "rx_rstack_codes",
+PROBES = ["uart_connect_flow_None", "uart_connect_flow_software", "uart_connect_flow_hardware", "tx_data", "tx_ack", "tx_nak", "tx_rst", "tx_len_0", "tx_len_200", "tx_all_reserved", "rx_control_bytes", "rx_rstack_codes",
           "rx_error_codes", "flip_1bit", "flip_2bit", "flip_crc_hi", "flip_crc_lo"]
 
 
@@ -35,6 +35,9 @@ def plan(tier):
     step = 8 if tier == "quick" else 40
     for i in range(0, 201, step):
         sweeps.append(("tx", {"lens": lens[i:i + step]}))
+    # the same through the real connection factory (bellows.uart.connect) for every flow-control setting of the device configuration
+    for flow in (None, "software", "hardware"):
+        sweeps.append(("uart", {"flow": flow}))
     sweeps.append(("rx_control", {}))
     sweeps.append(("rx_codes", {}))
     for i in range(0, 201, 50):
@@ -292,6 +295,38 @@ def run_flip(params, tape, detail=False):
             "sample": {"scenario": "flip", "base": params["base"], "frame": raw.hex(), "corruptions": len(cases), "first": [list(c) for c in cases[:5]]}}
 
 
+def run_uart(params, tape, detail=False):
+    """Frames written by a stack that was connected through bellows.uart.connect (Gateway + AshProtocol built by the library itself) with the
+    given flow-control setting: every write goes through the wire monitor (layout, stuffing, CRC, no reserved byte other than ESCAPE)."""
+    import asyncio
+
+    from .. import e3
+
+    rig = e3.StackRig(tape, version=8, sched=False, fast_line=True, chunking=False, flow_control=params["flow"], max_iters=2_000_000)
+    n = [0]
+
+    async def main():
+        ez = await rig.bringup()
+        for i in range(220):
+            data = bytes(((i * 29 + j * 7) ^ (j << 3)) & 0xFF for j in range(1 + i % 48))
+            r = await ez.echo(data=data)
+            n[0] += 1
+            if bytes(r[0]) != data:
+                rig.mon._v("C03.tx", "echo", f"echo of {data.hex()} came back as {bytes(r[0]).hex()}")
+        await asyncio.sleep(0.1)
+
+    outcome, val = rig.run(main())
+    viol = [v for v in rig.mon.viol if v[0].startswith("C03.")]
+    if outcome != "done":
+        viol.append(("C03.tx", "sim-" + outcome, f"flow_control={params['flow']!r}: ended with {outcome}: {val!r}"))
+    sigs = {hashlib.blake2b(d, digest_size=8).digest() for (_t, _f, d) in rig.host_writes}
+    wire = b"".join(d for (_t, _f, d) in rig.host_writes)
+    probes = {"uart_connect_flow_" + str(params["flow"]): 1, "tx_data": n[0]}
+    return {"viol": viol[:10], "evals": max(1, len(rig.host_writes)), "sigs": sigs, "probes": probes, "vt": rig.loop.time(), "iters": rig.loop.iters,
+            "digest": hashlib.sha256(wire).hexdigest()[:16],
+            "sample": {"scenario": "uart", "flow_control": params["flow"], "frames_written": len(rig.host_writes), "escape_bytes_on_wire": wire.count(b"\x7d")}}
+
+
 def run(scenario, params, tape, detail=False):
     if scenario == "tx":
         res = run_tx(params, tape, detail)
@@ -303,6 +338,8 @@ def run(scenario, params, tape, detail=False):
         res = run_rx_payload(params, tape)
     elif scenario == "flip":
         res = run_flip(params, tape, detail)
+    elif scenario == "uart":
+        return run_uart(params, tape, detail)
     elif scenario == "link":
         res = e1.run(params, tape, detail=detail)
         res["viol"] = [v for v in res["viol"]]
